@@ -312,6 +312,21 @@ pub fn recipes(subs: &[Subject], rng: &mut Rng, numbers_everywhere: bool) -> Vec
                 out.push(Recipe { subj: si, label: format!("redeclare:log_trace+{d},{m} more FRI layers"), edits: e });
             }
         }
+        // the composition table re-declared with one column, its "rows" being the row hashes of the committed two-column rows
+        // (single-column rows are used unhashed, in Montgomery form): the decommitment still authenticates
+        {
+            let nvf = felt_at(&cfg(&["composition", "vector", "n_verifier_friendly_commitment_layers"]));
+            let h = felt_at(&cfg(&["composition", "vector", "height"]));
+            let vp = vec![Seg::Key("witness".into()), Seg::Key("composition_decommitment".into()), Seg::Key("values".into())];
+            let vals: Vec<Felt> = get(&s.proof, &vp).as_array().map(|a| a.iter().filter_map(|x| x.as_str().and_then(|t| Felt::from_hex(t).ok())).collect()).unwrap_or_default();
+            if nvf > h && vals.len() % 2 == 0 && !vals.is_empty() {
+                let r = Felt::from_hex_unchecked("0x7FFFFFFFFFFFDF0FFFFFFFFFFFFFFFFFFFFFFFFFFFFFFFFFFFFFFFFFFFFFFE1");
+                let rinv = r.inverse().unwrap();
+                let hashes: Vec<Value> = vals.chunks(2).map(|c| hexv(starknet_crypto::poseidon_hash_many(&[c[0] * r, c[1] * r]) * rinv)).collect();
+                out.push(Recipe { subj: si, label: "redeclare:composition as one column of row hashes".into(),
+                    edits: vec![(cfg(&["composition", "n_columns"]), Edit::Set(hexv(Felt::ONE))), (vp, Edit::Set(Value::Array(hashes)))] });
+            }
+        }
         // continuous page headers (none of the accepted proofs has one): a zero product, a huge size
         {
             let hp = vec![Seg::Key("public_input".into()), Seg::Key("continuous_page_headers".into())];
